@@ -4,14 +4,27 @@ from cohdl._compiler.frontend import generate_internal_representation
 from cohdl._compiler.backend import generate_vhdl
 
 
+def _discard_build_state():
+    # state of the std library that is tied to a single build,
+    # a build that failed with an exception might not have cleaned it up
+    from ._prefix import _Prefix
+    from ._context import SequentialContext
+
+    _Prefix._prefix_scope.clear()
+    SequentialContext._exit_context()
+
+
 class VhdlCompiler:
     @classmethod
     def to_ir(cls, entity):
-        return generate_internal_representation(entity)
+        try:
+            return generate_internal_representation(entity)
+        finally:
+            _discard_build_state()
 
     @classmethod
     def to_vhdl_library(cls, top_entity, *, additional_reserved_names: set[str] = None):
-        ir = generate_internal_representation(top_entity)
+        ir = cls.to_ir(top_entity)
         return generate_vhdl(ir, additional_reserved_names=additional_reserved_names)
 
     @classmethod
